@@ -100,7 +100,7 @@ def parse_spec_file(path):
 # --------------------------------------------------------------------------
 # rewriting
 # --------------------------------------------------------------------------
-def apply_rewrites(src, rules, fname):
+def apply_rewrites(src, rules, fname, warnings=None):
     """rules: list of dicts(kind='lit'|'re', pat, rep, count=int|None|'+', name)."""
     log = []
     for r in rules:
@@ -157,7 +157,12 @@ def apply_rewrites(src, rules, fname):
         want = r.get('count', 1)
         ok = (n >= 1) if want == '+' else (True if want is None else n == want)
         if not ok:
-            raise LostAnchor('rewrite rule %s in %s matched %d times, expected %s' % (r['name'], fname, n, want))
+            # the code the rule targets changed: apply what matched and let the verifier decide (it either still
+            # accepts the text or reports an unsupported construct -> undecided); recorded as a warning
+            if warnings is not None:
+                warnings.append('rewrite rule %s in %s matched %d times, expected %s' % (r['name'], fname, n, want))
+            else:
+                raise LostAnchor('rewrite rule %s in %s matched %d times, expected %s' % (r['name'], fname, n, want))
         log.append((r['name'], n))
         src = new
     return src, log
@@ -213,7 +218,8 @@ def inject(src, fnspecs, fname, warnings):
             name = sp.path.split()[1]
             mm = re.search(r'\bstruct\s+%s\b[^;{]*\{' % re.escape(name), m)
             if not mm:
-                raise LostAnchor('spec %s: struct %s not found in %s' % (sp.src, name, fname))
+                warnings.append('spec %s: struct %s not found in %s: section skipped' % (sp.src, name, fname))
+                continue
             close = rsx.match_close(m, mm.end() - 1)
             for kind, arg, text, ln in sp.parts:
                 if kind == 'fields':
@@ -229,7 +235,8 @@ def inject(src, fnspecs, fname, warnings):
             path, ordinal = mm.group(1), int(mm.group(2))
         cands = by_path.get(path, [])
         if len(cands) < ordinal:
-            raise LostAnchor('spec %s: function %s not found in %s' % (sp.src, sp.path, fname))
+            warnings.append('spec %s: function %s not found in %s: section skipped' % (sp.src, sp.path, fname))
+            continue
         f = cands[ordinal - 1]
         used.add(id(f))
         tag = '%s' % sp.path
@@ -247,7 +254,8 @@ def inject(src, fnspecs, fname, warnings):
                 # name the return value
                 arrow = _find_arrow(m, f)
                 if arrow is None:
-                    raise LostAnchor('spec %s: %s has no return type' % (sp.src, sp.path))
+                    warnings.append('spec %s: %s has no return type: ret part skipped' % (sp.src, sp.path))
+                    continue
                 a, b = arrow
                 edits.append((a, a, inj('(%s: ' % arg)))
                 edits.append((b, b, inj(')')))
@@ -262,18 +270,21 @@ def inject(src, fnspecs, fname, warnings):
             elif kind in ('loop', 'loop_body_start', 'loop_end', 'after_loop'):
                 k = int(arg)
                 if k < 1 or k > len(f.loops):
-                    raise LostAnchor('spec %s: %s has %d loops, wanted #%d' % (sp.src, sp.path, len(f.loops), k))
+                    warnings.append('spec %s: %s has %d loops, wanted #%d: part skipped' % (sp.src, sp.path, len(f.loops), k))
+                    continue
                 kw, bo, bc = f.loops[k - 1]
                 pos = {'loop': bo, 'loop_body_start': bo + 1, 'loop_end': bc, 'after_loop': bc + 1}[kind]
                 edits.append((pos, pos, inj('\n' + text + '\n')))
             elif kind == 'loop_iter':
                 k = int(arg)
                 if k < 1 or k > len(f.loops):
-                    raise LostAnchor('spec %s: %s has %d loops, wanted #%d' % (sp.src, sp.path, len(f.loops), k))
+                    warnings.append('spec %s: %s has %d loops, wanted #%d: part skipped' % (sp.src, sp.path, len(f.loops), k))
+                    continue
                 kw, bo, bc = f.loops[k - 1]
                 mm2 = re.compile(r'\bin\s+').search(m, kw, bo)
                 if not mm2 or not m.startswith('for', kw):
-                    raise LostAnchor('spec %s: loop #%d of %s is not a for loop' % (sp.src, k, sp.path))
+                    warnings.append('spec %s: loop #%d of %s is not a for loop: part skipped' % (sp.src, k, sp.path))
+                    continue
                 edits.append((mm2.end(), mm2.end(), inj(text.strip() + ': ')))
             elif kind in ('hint_before', 'hint_after'):
                 mm2 = re.match(r'/(.*)/\s*(?:#(\d+))?$', arg)
@@ -307,7 +318,8 @@ def inject(src, fnspecs, fname, warnings):
                 ms = list(rx.finditer(body))
                 nth = int(mm2.group(2) or 1)
                 if len(ms) < nth:
-                    raise LostAnchor('spec %s: replace anchor %r of %s not found' % (sp.src, mm2.group(1), sp.path))
+                    warnings.append('spec %s: replace anchor %r of %s not found: part skipped' % (sp.src, mm2.group(1), sp.path))
+                    continue
                 g = ms[nth - 1]
                 edits.append((f.item_start + g.start(), f.item_start + g.end(), inj('/*R:%s*/' % g.group(0).replace('*/', '* /')) + g.expand(text.strip('\n'))))
             else:
@@ -391,7 +403,7 @@ def build(repo_src, only=None):
         sources[md['name']] = p
         src = rsx.strip_test_modules(src)
         src = strip_docs(src)
-        src, log = apply_rewrites(src, md.get('rewrites', []), md['file'])
+        src, log = apply_rewrites(src, md.get('rewrites', []), md['file'], warnings)
         rewrites_log += [(md['file'],) + x for x in log]
         fnspecs, extra = parse_spec_file(os.path.join(SPECS, 'contracts', md['name'].replace('::', '_') + '.spec'))
         src, unc = inject(src, fnspecs, md['file'], warnings)
